@@ -813,8 +813,8 @@ def dump(dbs, f, **options):
                     # createSubElement(compuScale, 'UPPER-LIMIT', str(#TODO))
                     compu_rationsl_coeff = create_sub_element(compu_scale, 'COMPU-RATIONAL-COEFFS')
                     compu_numerator = create_sub_element(compu_rationsl_coeff, 'COMPU-NUMERATOR')
-                    create_sub_element(compu_numerator, 'V', "%g" % signal.offset)
-                    create_sub_element(compu_numerator, 'V', "%g" % signal.factor)
+                    create_sub_element(compu_numerator, 'V', str(signal.offset))
+                    create_sub_element(compu_numerator, 'V', str(signal.factor))
                     compu_denomiator = create_sub_element(compu_rationsl_coeff, 'COMPU-DENOMINATOR')
                     create_sub_element(compu_denomiator, 'V', "1")
 
